@@ -181,7 +181,9 @@ CHECKS = {
         "and has no write effect on the graph it is called on (R-DERIVE-PURE, "
         "ownership interpreter); for all 89 (reactant, "
         "product, TS, bond role) descriptor scenarios overlay(static, "
-        "broken) = reactant and overlay(static, formed) = product.",
+        "broken) = reactant and overlay(static, formed) = product; no "
+        "comparison of atom collections is the verdict 'same descriptor' "
+        "except for an unspecified parity (R-DESC-CMP).",
         "Not decided: set equalities as values; reversing twice identical as "
         "a behaviour.",
         "DESIGN.md 3/C08"),
